@@ -20,6 +20,10 @@ TOPO = {
     'balls3': dict(switches={'bd_trough': ['s_t1', 's_t2', 's_t3'], 'bd_plunger': ['s_plunger'], 'bd_lock': ['s_lock1', 's_lock2']},
                    target={'bd_trough': 'bd_plunger', 'bd_plunger': 'pf', 'bd_lock': 'bd_plunger'}, cap='MCCap3', tgt='MCTarget3',
                    confirm={'bd_lock': 's_lock_confirm'}),
+    # the lock counts by an entrance switch and holds what it gets (ball_hold); released on request
+    'balls4': dict(switches={'bd_trough': ['s_t1', 's_t2', 's_t3'], 'bd_plunger': ['s_plunger'], 'bd_lock': []},
+                   target={'bd_trough': 'bd_plunger', 'bd_plunger': 'pf', 'bd_lock': 'pf'}, cap='MCCap4', tgt='MCTarget4',
+                   entrance={'bd_lock': 's_lock_entrance'}, holding=['bd_lock']),
 }
 _H = {}
 
@@ -31,6 +35,8 @@ class World:
         self.SW = TOPO[topo]['switches']
         self.TG = TOPO[topo]['target']
         self.CONFIRM = TOPO[topo].get('confirm', {})
+        self.ENTRANCE = TOPO[topo].get('entrance', {})
+        self.CAP = CAPS[topo]
         self.h = h
         self.m = h.machine
         self.loop = self.m.clock.loop
@@ -39,6 +45,8 @@ class World:
         self.ev = ev
         self.pending = 0               # world moves scheduled and not done yet
         self.fired = set()             # devices whose coil was pulsed and whose ball has not reacted yet
+        self.HOLDING = TOPO[topo].get('holding', [])
+        self.released = {}             # holding device -> released balls that have not left yet
         self.want = 0
 
     def mpf(self):
@@ -54,6 +62,8 @@ class World:
         return sorted(b for b, p in self.loc.items() if p == place)
 
     def sync_switches(self, dev):
+        if dev in self.ENTRANCE:
+            return      # no ball switches: balls are counted as they pass the entrance
         n = len(self.at(dev))
         for i, s in enumerate(self.SW[dev]):
             want = 1 if i < n else 0
@@ -82,6 +92,8 @@ class World:
         self.fired.add(dev)
         q = self.outcomes.get(dev) or []
         kind = q.pop(0) if q else 'ok'
+        if dev in self.ENTRANCE:
+            kind = 'ok'     # failed ejects of an entrance-counted device cannot be sensed by anybody: not driven
         self.later(0.1, self.react, dev, kind)
 
     def react(self, dev, kind):
@@ -93,6 +105,8 @@ class World:
         b = balls[-1]
         self.loc[b] = ('transit', dev, self.TG[dev], kind)
         self.sync_switches(dev)
+        if kind == 'ok' and self.released.get(dev):
+            self.released[dev] -= 1
         self.log(op='leave', d=dev, b=b, kind=kind)
         if dev in self.CONFIRM and kind == 'ok':
             # the ball passes the eject-confirm switch shortly before it reaches the target
@@ -110,6 +124,8 @@ class World:
         if place == 'pf':
             self.m.switch_controller.process_switch('s_pf', 1, logical=True)
             self.m.switch_controller.process_switch('s_pf', 0, logical=True)
+        elif place in self.ENTRANCE and src != place:
+            self.pulse_switch(self.ENTRANCE[place])
         else:
             self.sync_switches(place)
         self.log(op='arrive', b=b, at=place)
@@ -127,12 +143,14 @@ class World:
 
     def shot(self, dev):
         balls = self.at('pf')
-        room = len(self.SW[dev]) - len(self.at(dev)) - len([1 for p in self.loc.values() if isinstance(p, tuple) and
+        room = self.CAP[dev] - len(self.at(dev)) - len([1 for p in self.loc.values() if isinstance(p, tuple) and
                                                             ((p[3] == 'ok' and p[2] == dev) or (p[3] == 'back' and p[1] == dev))])
         if not balls or room <= 0:
             return
         b = balls[0]
         self.loc[b] = ('transit', 'pf', dev, 'ok')
+        if dev in self.HOLDING:
+            self.want = max(0, self.want - 1)
         self.log(op='shot', b=b, d=dev)
         self.later(0.7, self.arrive, b)
 
@@ -147,6 +165,25 @@ class World:
         self.sync_switches(dev)
         self.log(op='escape', b=b, d=dev)
         self.later(0.5, self.arrive, b)
+
+    def room(self, dev):
+        return self.CAP[dev] - len(self.at(dev)) - len([1 for p in self.loc.values() if isinstance(p, tuple) and
+                                                         ((p[3] == 'ok' and p[2] == dev) or (p[3] == 'back' and p[1] == dev))])
+
+    def bounce(self, dev):
+        balls = self.at('pf')
+        if not balls or dev not in self.ENTRANCE or self.room(dev) != 0 or dev in self.fired or self.released.get(dev):
+            return
+        self.log(op='bounce', b=balls[0], d=dev)
+        self.pulse_switch(self.ENTRANCE[dev])
+
+    def release(self, dev):
+        if dev not in self.HOLDING or dev in self.fired or self.released.get(dev) or not self.at(dev) or self.room(dev) != self.CAP[dev] - len(self.at(dev)):
+            return
+        self.released[dev] = len(self.at(dev))
+        self.want += len(self.at(dev))
+        self.log(op='release', d=dev)
+        self.m.events.post('hold_release')
 
     def request(self):
         self.want += 1
@@ -163,6 +200,9 @@ def _boot(topo):
     for s in TOPO[topo]['switches']['bd_trough']:
         m.switch_controller.process_switch(s, 1, logical=True)
     h.advance_time_and_run(10)
+    if 'holding' in TOPO[topo]:
+        m.events.post('hold_on')
+        h.advance_time_and_run(1)
     if m.ball_devices['bd_trough'].balls != 3 or m.ball_controller.num_balls_known != 3:
         raise RuntimeError('machine did not find its three balls at boot')
     return h
@@ -213,7 +253,7 @@ def _exec(sched, seed, topo):
 
         for si, s in enumerate(sched):
             op = s['op']
-            if 'after' in s and op in ('request', 'drain', 'shot', 'escape'):
+            if 'after' in s and op in ('request', 'drain', 'shot', 'escape', 'bounce', 'release'):
                 # hand-written timing: this operation comes right after the named world event (op, device/place)
                 n0 = len(ev)
                 for _ in range(400):
@@ -228,6 +268,10 @@ def _exec(sched, seed, topo):
                 w.shot(s['d'])
             elif op == 'escape':
                 w.escape(s['d'])
+            elif op == 'bounce':
+                w.bounce(s['d'])
+            elif op == 'release':
+                w.release(s['d'])
             else:
                 continue
             if any('after' in s2 for s2 in sched[si + 1:si + 2]):
@@ -266,9 +310,12 @@ CONSTANTS
   Target <- %s
   Shootable = {"bd_lock"}
   Escapable = {}
+  Holding = {%s}
+  EntranceCounted = {%s}
   MaxOps = %d
 %sCHECK_DEADLOCK FALSE
-""" % (spec, t['cap'], t['tgt'], maxops, extra)
+""" % (spec, t['cap'], t['tgt'], ', '.join('"%s"' % d for d in t.get('holding', [])),
+       ', '.join('"%s"' % d for d in t.get('entrance', {})), maxops, extra)
 
 
 def handmade():
@@ -276,6 +323,8 @@ def handmade():
     D = {'op': 'drain'}
     S = {'op': 'shot', 'd': 'bd_lock'}
     X = {'op': 'escape', 'd': 'bd_lock'}
+    B = {'op': 'bounce', 'd': 'bd_lock'}
+    REL = {'op': 'release', 'd': 'bd_lock'}
     L = lambda d, k: {'op': 'leave', 'd': d, 'kind': k}
     N = lambda d: {'op': 'noleave', 'd': d}
     AF = lambda s, op, where: dict(s, after=(op, where))
@@ -286,6 +335,11 @@ def handmade():
         [R, AF(S, 'arrive', 'pf'), AF(R, 'fire', 'bd_lock'), D, D],
         [R, AF(S, 'arrive', 'pf'), AF(R, 'arrive', 'bd_lock'), AF(R, 'leave', 'bd_lock'), D, D, D],
         [R, R, AF(S, 'arrive', 'pf'), AF(D, 'leave', 'bd_lock'), AF(R, 'arrive', 'bd_plunger'), D],
+        # an entrance-counted holding lock is filled, a further ball rolls over its entrance and bounces back, then
+        # the held balls are released (no effect in the topologies without such a lock)
+        [R, AF(S, 'arrive', 'pf'), R, AF(S, 'arrive', 'pf'), R, AF(B, 'arrive', 'pf'), B, D, REL, D, D],
+        [R, AF(S, 'arrive', 'pf'), R, AF(S, 'arrive', 'pf'), AF(B, 'arrive', 'bd_lock'), REL, R, D, D, D],
+        [R, AF(S, 'arrive', 'pf'), REL, AF(S, 'arrive', 'pf'), R, D, REL, D],
         [R, D, R, R, D, D],
         [R, L('bd_trough', 'back'), L('bd_plunger', 'back'), R, D],
         [R, N('bd_trough'), N('bd_trough'), R, S, S, D],
@@ -300,7 +354,7 @@ def handmade():
 def run_world(ctx):
     wd = tlc.prepare(ctx.scratch, 'BallWorld', 'ballworld')
     alljobs, alltraces, rejected = [], [], {}
-    for topo in ('balls', 'balls2', 'balls3'):
+    for topo in ('balls', 'balls2', 'balls3', 'balls4'):
         with open(wd + '/MC.cfg', 'w') as f:
             f.write(cfg_text('Spec', topo, 4 if ctx.quick else 6, 'INVARIANT TypeOK\nINVARIANT NeverOverfull\n'))
         r = tlc.expect_ok(tlc.check(wd, 'BallWorldMC', 'MC.cfg', workers=8, timeout=2000), 'BallWorld design check')
@@ -328,7 +382,7 @@ def run_world(ctx):
 
 
 CAPS = {'balls': {'bd_trough': 3, 'bd_plunger': 1, 'bd_lock': 2}, 'balls2': {'bd_trough': 3, 'bd_plunger': 2, 'bd_lock': 2},
-        'balls3': {'bd_trough': 3, 'bd_plunger': 1, 'bd_lock': 2}}
+        'balls3': {'bd_trough': 3, 'bd_plunger': 1, 'bd_lock': 2}, 'balls4': {'bd_trough': 3, 'bd_plunger': 1, 'bd_lock': 2}}
 
 
 def classify(fe, topo):
